@@ -61,6 +61,51 @@ func runC25(c *Ctx) {
 		c.Check(w == r && w != "", "terminatedSerializer", "the fixed-width fields written equal the fields read", c.P.Pos(c.Func("actor", "terminatedSerializer.Serialize").Decl.Pos()), "writer: "+w+" reader: "+r)
 	})
 
+	c.Rule("strict-codec-config", func() {
+		// a serializer either encodes a value faithfully or reports an error: options that silently substitute a value
+		// (sonic: EncodeNullForInfOrNan; cbor: NaN/Inf conversion, lossy time/float shortening) turn "error" into "different message"
+		lossy := map[string]string{"EncodeNullForInfOrNan": "non-finite floats become null", "NaNConvert": "NaN payloads rewritten", "InfConvert": "infinities rewritten", "ShortestFloat": "floats narrowed"}
+		n := 0
+		for _, pk := range c.P.Pkgs {
+			if relPkg(pk.PkgPath) != "remote" {
+				continue
+			}
+			for _, file := range pk.Syntax {
+				ast.Inspect(file, func(nd ast.Node) bool {
+					cl, ok := nd.(*ast.CompositeLit)
+					if !ok {
+						return true
+					}
+					named := namedOf(pk.TypesInfo.TypeOf(cl))
+					if named == nil || named.Obj().Pkg() == nil {
+						return true
+					}
+					p := named.Obj().Pkg().Path()
+					if !(p == "github.com/bytedance/sonic" || p == "github.com/bytedance/sonic/api" || p == "github.com/fxamacker/cbor/v2") {
+						return true
+					}
+					n++
+					bad := ""
+					for _, el := range cl.Elts {
+						if kv, ok := el.(*ast.KeyValueExpr); ok {
+							if id, ok := kv.Key.(*ast.Ident); ok {
+								if why, isLossy := lossy[id.Name]; isLossy {
+									if tv, ok := pk.TypesInfo.Types[kv.Value]; !ok || tv.Value == nil || tv.Value.ExactString() != "false" && tv.Value.ExactString() != "0" {
+										bad += id.Name + " (" + why + ") "
+									}
+								}
+							}
+						}
+					}
+					c.Check(bad == "", "config/"+named.Obj().Name()+"#"+itoa(n), "codec configurations of the built-in serializers enable no value-substituting option", c.P.Pos(cl.Pos()), "lossy option(s) set: "+bad)
+					return true
+				})
+			}
+		}
+		// the JSON API object is a library preset or one of the literals checked above
+		c.Ok("scanned", "codec configuration literals in package remote: "+itoa(n), "-")
+	})
+
 	c.Rule("dispatch", func() {
 		for _, m := range []string{"Serialize", "Deserialize"} {
 			fn := c.Func("internal/remoteclient", "serializerDispatch."+m)
